@@ -488,6 +488,14 @@ impl std::fmt::Display for Call {
     }
 }
 
+// verification hook: compiled only with RUSTFLAGS="--cfg redproxy_verif"
+#[cfg(redproxy_verif)]
+impl Call {
+    pub fn verif_parts(&self) -> (&Value, &[Value]) {
+        (&self.func, &self.args)
+    }
+}
+
 impl Call {
     pub fn new(mut args: Vec<Value>) -> Self {
         let func = args.remove(0);
